@@ -41,10 +41,149 @@ def decorate(rnd, n, ev, ops):
         if o["o"] == "raise":
             via = rnd.choice(VIAS)
             out.append({"o": "raise", "a": o["a"], "via": via, "t": rnd.randint(1, n) if via in ("self", "async") else 0})
+        elif o["o"] == "batch":
+            out.append({"o": "batch", "a": o["a"], "ops": [{"o": x["o"], "a": x["a"]} for x in o["ops"]]})
         else:
             out.append({"o": o["o"], "a": o["a"]})
+    ev = [dict(e, prog=[{"o": x["o"], "a": x["a"]} for x in e.get("prog", [])]) for e in ev]
     return {"n": n, "eng": [rnd.choice(ENGINES) for _ in range(n)], "kind": [rnd.choice(KINDS) for _ in range(3)],
             "ev": ev, "ops": out}
+
+
+def random_cb_script(rnd, nops):
+    """Histories with callbacks that change subscriptions (enable/disable/destroy of events of the same loop from inside the
+    callback), several subscription calls in one task (batch) and loops that are held busy while signals are raised, so
+    that they read a batch of numbers.  Every loop has an anchor event (persistent, no program, never touched by a
+    program); a loop is held only while its anchor is enabled and nothing is done to its events meanwhile, so its pipe is
+    never closed while numbers are pending (what happens to those is not specified).  The python mirror below only steers
+    the choice of the next step; inapplicable steps are skipped by the driver."""
+    n = rnd.choice([1, 2, 2, 3])
+    ev = [{"L": L, "sigs": [s for s in (1, 2, 3) if rnd.random() < 0.4] or [rnd.randint(1, 3)], "os": False, "prog": []}
+          for L in range(1, n + 1)]
+    anchors = set(range(n))
+    for _ in range(rnd.randint(2, 6)):
+        ev.append({"L": rnd.randint(1, n), "sigs": [s for s in (1, 2, 3) if rnd.random() < 0.45] or [rnd.randint(1, 3)],
+                   "os": rnd.random() < 0.3, "prog": []})
+    nev = len(ev)
+    for i in range(n, nev):
+        if rnd.random() < 0.6:
+            mates = [j for j in range(n, nev) if ev[j]["L"] == ev[i]["L"]]
+            for _ in range(rnd.randint(1, 3)):
+                j = rnd.choice(mates)
+                o = rnd.choice(["enable", "disable", "disable"])
+                if j != i and not set(ev[j]["sigs"]) & set(ev[i]["sigs"]) and rnd.random() < 0.3:
+                    o = "destroy"                           # never an event that may be in the set being served
+                ev[i]["prog"].append({"o": o, "a": j + 1})
+    kind = [rnd.choice(["info", "plain", "ign", "ign", "dfl"]) for _ in range(3)]
+    st = ["off"] * nev
+    held, pending = set(), {}
+
+    def apply(L, o, j):
+        if ev[j]["L"] != L or st[j] not in ("on", "off"):
+            return
+        st[j] = {"enable": "on", "disable": "off", "destroy": "absent"}[o]
+
+    def dispatch(L, s):
+        for i in [i for i in range(nev) if ev[i]["L"] == L and st[i] == "on" and s in ev[i]["sigs"]]:
+            if ev[i]["os"] and st[i] == "on":
+                st[i] = "off"
+            for x in ev[i]["prog"]:
+                apply(L, x["o"], x["a"] - 1)
+
+    ops = []
+    guard = 0
+    while len(ops) < nops and guard < 50 * nops:
+        guard += 1
+        r = rnd.random()
+        if r < 0.36:
+            s = rnd.randint(1, 3)
+            subscribed = any(st[i] == "on" and s in ev[i]["sigs"] for i in range(nev))
+            if not subscribed and (kind[s - 1] == "dfl" or rnd.random() < 0.6):
+                continue
+            ops.append({"o": "raise", "a": s})
+            for L in range(1, n + 1):
+                if L in held:
+                    pending[L].append(s)
+                else:
+                    dispatch(L, s)
+        elif r < 0.44:
+            L = rnd.randint(1, n)
+            if L not in held and len(held) < 2 and st[L - 1] == "on":
+                ops.append({"o": "hold", "a": L}); held.add(L); pending[L] = []
+        elif r < 0.56:
+            if held:
+                L = rnd.choice(sorted(held))
+                if len(pending[L]) >= 1 or rnd.random() < 0.2:
+                    ops.append({"o": "release", "a": L}); held.discard(L)
+                    for s in pending.pop(L):
+                        dispatch(L, s)
+        elif r < 0.70:
+            L = rnd.randint(1, n)
+            mine = [j for j in range(nev) if ev[j]["L"] == L and st[j] in ("on", "off")]
+            if L in held or len(mine) < 1:
+                continue
+            b = []
+            for _ in range(rnd.randint(2, 3)):
+                j = rnd.choice(mine)
+                o = rnd.choice(["enable", "enable", "disable", "disable", "destroy"])
+                b.append({"o": o, "a": j + 1}); apply(L, o, j)
+            ops.append({"o": "batch", "a": L, "ops": b})
+        else:
+            e = rnd.randrange(nev)
+            if ev[e]["L"] in held:
+                continue
+            if st[e] == "absent":
+                ops.append({"o": "create", "a": e + 1}); st[e] = "off"
+            elif r < 0.84:
+                ops.append({"o": "enable", "a": e + 1}); st[e] = "on"
+            elif r < 0.96:
+                ops.append({"o": "disable", "a": e + 1}); st[e] = "off"
+            else:
+                ops.append({"o": "destroy", "a": e + 1}); st[e] = "absent"
+    sc = decorate(rnd, n, ev, ops)
+    sc["kind"] = kind
+    return sc
+
+
+def cb_scripts(rnd):
+    """Fixed histories: (a) a loop's last subscription is removed and another one added in ONE task (no loop pass in
+    between: the deferred deletion of the old pipe event has not run yet, pipe2() hands back the same descriptors), then
+    deliveries; (b) the same from inside a callback; (c) two subscribers of one signal whose callbacks disable the whole
+    group, a subscriber of another signal in the same loop, the loop held while both signals are raised (one batch)."""
+    out = []
+    for eng in ENGINES:
+        for (s1, s2) in ((1, 2), (2, 3), (3, 1)):
+            for extra in (0, 1):                            # a second, idle loop with its own engine
+                n = 1 + extra
+
+                def mk(ev, ops):
+                    sc = decorate(rnd, n, ev, ops)
+                    sc["eng"][0] = eng
+                    for s in (s1, s2):
+                        sc["kind"][s - 1] = rnd.choice(["info", "plain", "ign"])
+                    for o in sc["ops"]:
+                        if o["o"] == "raise" and o["via"] in ("self", "async"):
+                            o["t"] = 1
+                    out.append(sc)
+                E = lambda sigs, os=False, prog=(): {"L": 1, "sigs": sigs, "os": os, "prog": [{"o": o, "a": a} for o, a in prog]}
+                R = lambda s, k=1: [{"o": "raise", "a": s}] * k
+                # (a)
+                for first in ("disable", "destroy"):
+                    mk([E([s1]), E([s2])], [{"o": "enable", "a": 1}, {"o": "batch", "a": 1, "ops": [{"o": first, "a": 1}, {"o": "enable", "a": 2}]}]
+                       + R(s2, 3) + R(s1))
+                mk([E([s1]), E([s2])], [{"o": "enable", "a": 1}] + R(s1) + [{"o": "batch", "a": 1, "ops": [{"o": "disable", "a": 1}, {"o": "enable", "a": 1}]}]
+                   + R(s1, 2))
+                # (b)
+                mk([E([s1], prog=[("disable", 1), ("enable", 2)]), E([s2])], [{"o": "enable", "a": 1}] + R(s1) + R(s2, 3) + R(s1))
+                mk([E([s1], True, [("enable", 2)]), E([s2], True, [("enable", 1)])], [{"o": "enable", "a": 1}] + R(s1) + R(s2) + R(s1) + R(s2))
+                # (c)
+                grp = [("disable", 1), ("disable", 3)]
+                ev = [E([s1], prog=grp), E([s2]), E([s1], prog=grp)]
+                on = [{"o": "enable", "a": e} for e in (1, 2, 3)]
+                mk(ev, on + [{"o": "hold", "a": 1}] + R(s1) + R(s2, 2) + [{"o": "release", "a": 1}] + R(s2))
+                mk(ev, on + [{"o": "hold", "a": 1}] + R(s1, 2) + R(s2) + R(s1) + [{"o": "release", "a": 1}] + on[::2]
+                   + [{"o": "hold", "a": 1}] + R(s2) + R(s1) + R(s2) + [{"o": "release", "a": 1}])
+    return out
 
 
 def random_script(rnd, nops, wide=False):
@@ -105,8 +244,8 @@ def wide_scripts(rnd):
     for n in (5, 6, 7, 8):
         for s0 in (1, 2, 3):
             for rev in (False, True):
-                ev = [{"L": L, "sigs": [s0], "os": False} for L in range(1, n + 1)]
-                ev.append({"L": n, "sigs": sorted({s0, s0 % 3 + 1}), "os": True})        # a multi-signal one-shot on the last loop
+                ev = [{"L": L, "sigs": [s0], "os": False, "prog": []} for L in range(1, n + 1)]
+                ev.append({"L": n, "sigs": sorted({s0, s0 % 3 + 1}), "os": True, "prog": []})        # a multi-signal one-shot on the last loop
                 order = list(range(1, n + 2))
                 if rev:
                     order.reverse()
@@ -139,6 +278,10 @@ def script_of_trace(lines):
             sc["ops"].append({"o": e["e"], "a": e["ev"]})
         elif e["e"] == "raise":
             sc["ops"].append({"o": "raise", "a": e["s"], "via": e["via"], "t": e["t"]})
+        elif e["e"] in ("hold", "release"):
+            sc["ops"].append({"o": e["e"], "a": e["L"]})
+        elif e["e"] == "batch":
+            sc["ops"].append({"o": "batch", "a": e["L"], "ops": e["ops"]})
     return sc
 
 
@@ -250,6 +393,7 @@ def run_scripts(ctx, exe, scripts, tag, what, replayed):
 def models(ctx):
     ctx.tlc_mc("Signals", "MC_Signals.tla", "MC_cov.cfg", required_actions=ACTIONS)           # one configuration, all kinds, per-action coverage
     ctx.tlc_mc("Signals", "MC_Signals.tla", "MC_quick.cfg", coverage=False)                    # 32 configurations x 4 kind vectors
+    ctx.tlc_mc("Signals", "MC_Signals.tla", "MC_cb.cfg", coverage=False)                       # callbacks that change subscriptions, every serving order
     for bug, inv in INVS_OF_BUG:                                                               # seeded design defects: non-vacuity
         if ctx.quick() and bug not in QUICK_BUGS:
             continue
@@ -277,12 +421,16 @@ def run(ctx):
     models(ctx)
     # 2. spec -> code: all scripts of the sequential model up to the depth bound
     rnd = random.Random(ctx.seed)
-    behs = ctx.tlc_gen("Signals", "Gen_Signals.tla", "Gen_quick.cfg" if ctx.quick() else "Gen_thorough.cfg", timeout=900)
-    behs.sort(key=lambda b: json.dumps(b, sort_keys=True))        # TLC's output order depends on its worker threads
-    scripts = [decorate(rnd, 2, b["ev"], b["ops"]) for b in behs]
+    scripts = []
+    # plain op sequences / + callbacks that change subscriptions and two-call batch tasks / + a held loop reading batches
+    for cfgs in (("Gen_quick.cfg", "Gen_thorough.cfg"), ("Gen_cb.cfg", "Gen_cb_thorough.cfg"), ("Gen_hold.cfg", "Gen_hold_thorough.cfg")):
+        cfg = cfgs[0] if ctx.quick() else cfgs[1]
+        behs = ctx.tlc_gen("Signals", "Gen_Signals.tla", cfg, timeout=900)
+        behs.sort(key=lambda b: json.dumps(b, sort_keys=True))    # TLC's output order depends on its worker threads
+        scripts += [decorate(rnd, 2, b["ev"], b["ops"]) for b in behs]
+        ctx.notes.append("%s: %d scripts (all step sequences of the depth bound), each executed once with seeded delivery "
+                         "paths / engines / kinds" % (cfg, len(behs)))
     ctx.exhaustive = True
-    ctx.notes.append("Gen_%s: %d scripts (all op sequences of the depth bound, 2 event configurations), each executed once with "
-                     "seeded delivery paths / engines / kinds" % ("quick" if ctx.quick() else "thorough", len(scripts)))
     ctx.sample({"kind": "model behaviour executed on real loops/threads/signals", "script": scripts[len(scripts) // 2]})
     ok, tr = run_scripts(ctx, exe, scripts, "gen", "replay of %d model behaviours" % len(scripts), True)
     if ok:
@@ -293,6 +441,7 @@ def run(ctx):
     nexec, nops = (1000, 30) if ctx.quick() else (12000, 60)
     nwide = nexec // 4                                            # a quarter of them with 5-8 loops sharing a signal
     rscripts = wide_scripts(rnd) + [random_script(rnd, nops, wide=i < nwide) for i in range(nexec)]
+    rscripts += cb_scripts(rnd) + [random_cb_script(rnd, nops) for _ in range(nexec // 2)]   # callbacks that (un)subscribe, batches, held loops
     rnd.shuffle(rscripts)                                         # spread the expensive ones over the shards
     ok, tr = run_scripts(ctx, exe, rscripts, "random", "%d random histories of %d steps" % (len(rscripts), nops), False)
     if ok:
@@ -306,9 +455,15 @@ def run(ctx):
         "while somebody is subscribed the kernel disposition is only recorded, not constrained (the statement does not say how "
         "tbox receives the signal); when nobody is subscribed handler, flags and mask must equal the saved sigaction",
         "signals used: SIGUSR1, SIGUSR2, SIGRTMIN+1; a raise is skipped while the current disposition is SIG_DFL (it would end the process)",
+        "callbacks that change subscriptions: an event of the set being served that an earlier callback of the same dispatch "
+        "unsubscribed may or may not be called (the statement does not say); an event enabled by a callback is served from the next "
+        "number on; an event is never destroyed while it may be in the set being served (the code has a FIXME there)",
+        "a loop is held (its thread parked in a task) only while an untouched persistent event keeps its pipe open: what happens to "
+        "numbers already queued when a callback closes the loop's pipe is not specified and not generated",
     ]
     ctx.uncovered = [
-        "subscription changes made from inside a signal callback or concurrently with a delivery (outside the statement's quantifier)",
+        "subscription changes made concurrently with a delivery from another thread (outside the statement's quantifier); destroying "
+        "an event from a callback of the delivery that is serving it; numbers pending in a pipe that a callback closes",
         "more than 8 loops / 3 signals on the real code; kernel merging of pending standard signals (excluded by the statement)",
         "sa_restorer and SA_RESTORER are compared only as part of sa_flags as returned by sigaction()",
     ]
